@@ -105,7 +105,10 @@ class TranslatorC(Translator):
             return str(loc_key)
 
         if expr.size <= self.NATIVE_INT_MAX_SIZE:
-            return "0x%x" % offset
+            out = "0x%x" % offset
+            if expr.size > 32:
+                out += "ULL"
+            return out
 
         value, int_size = int_size_to_bn(offset, 64)
         return 'bignum_from_string("%s", %d)' % (value, int_size)
